@@ -4,7 +4,6 @@ import (
 	"errors"
 	"net"
 	"strconv"
-	"strings"
 )
 
 const hexDigit = "0123456789abcdef"
@@ -292,9 +291,12 @@ func IsFqdn(s string) bool {
 
 	// Otherwise we have to check if the dot is escaped or not by checking if
 	// there are an odd or even number of escape sequences before the dot.
-	i := strings.LastIndexFunc(s, func(r rune) bool {
-		return r != '\\'
-	})
+	// Count octets, not runes: the character in front of the backslashes
+	// may be longer than one octet.
+	i := len(s) - 1
+	for i >= 0 && s[i] == '\\' {
+		i--
+	}
 	return (len(s)-i)%2 != 0
 }
 
